@@ -31,6 +31,7 @@ _spec.loader.exec_module(V)
 UTC = _dt.timezone.utc
 GEN = _dt.datetime(2020, 1, 2, 3, 4, 5, tzinfo=UTC)
 EXTRA = {"filesize": ["2**60", "2**70", "1023", "1024", "10**15"], "datetime": ["DT(1, 1, 1, 3, tzinfo=TZ(TD(hours=5)))", "DT(9999, 12, 31, 22, tzinfo=TZ(TD(hours=-5)))", "DT(1, 1, 1, tzinfo=TZ(TD(0)))"], "string": ["'a,b;c\\t\"q\"\\r\\nline'", "'\\udcff\\udc80'", "'é€😀'"],
+         "path": ["PureWindowsPath('c:/caf\\udce9/x')", "PurePosixPath('/tmp/\\udcff\\udc80')", "PureWindowsPath('//srv/share/na\\udce9ve')"], "command": ["'c:\\\\caf\\udce9\\\\run.exe /x'", "'/bin/ls \\udcff'"], "uri": ["'http://h/\\udce9'"],
          "bytes": ["b'\\xff\\x00,\"'"], "float": ["float('nan')", "float('inf')", "1e308"], "varint": ["-2**70"], "unix_file_mode": ["0o7777"]}
 
 
